@@ -38,7 +38,15 @@ impl<const N: usize, Value> IndexMap<N, Value> {
 
     #[inline(always)]
     pub(crate) unsafe fn delete(&mut self, index: usize) {
-        *self.index.get_unchecked_mut(index) = Self::NULL
+        let at = std::mem::replace(self.index.get_unchecked_mut(index), Self::NULL);
+        if at != Self::NULL {
+            // remove the entry itself, or a later `set` of the same key leaves
+            // a stale duplicate in `values` that `iter` yields again
+            self.values.swap_remove(at as usize);
+            if let Some((moved, _)) = self.values.get(at as usize) {
+                *self.index.get_unchecked_mut(*moved) = at
+            }
+        }
     }
 
     #[inline(always)]
